@@ -52,3 +52,13 @@ Definition plain_builders : list (string * list (string * ty)) := [
 Definition plain_misc : list (string * list (string * ty)) := [
   ("operation::VendorOperation", [("0", TU8)]);
   ("webauthn::KnownPublicKeyCredentialParameters", [("alg", TI32)])].
+
+(* the impls of the dispatch traits: only the three blanket impls exist, so a call on any handle to an authenticator resolves
+   (by auto-deref) to the authenticator's own methods *)
+Definition spec_dispatch_impls : list (string * string) := [
+  ("authenticator::Authenticator", "<A:ctap1::Authenticator+ctap2::Authenticator> for A");
+  ("ctap1::crate::Rpc<Error,Request<'_>,Response>", "<A:Authenticator> for A");
+  ("ctap2::crate::Rpc<Error,Request<'a>,Response>", "<'a,A:Authenticator> for A")].
+
+Definition dispatch_impls_hold (gen : list (string * string)) : bool :=
+  list_eqb (pair_eqb String.eqb String.eqb) gen spec_dispatch_impls.
